@@ -518,6 +518,14 @@ func runRepeat(c *mon.Case) {
 	})
 }
 
+// scale divides the case counts (development aid: C40_SCALE=4 runs a quarter).
+func scale(n int) int {
+	if v, err := strconv.Atoi(os.Getenv("C40_SCALE")); err == nil && v > 1 {
+		return n / v
+	}
+	return n
+}
+
 // Spec returns the C40 check.
 func Spec() *mon.Spec {
 	return &mon.Spec{
@@ -535,9 +543,12 @@ func Spec() *mon.Spec {
 		},
 		ChildSetup: childSetup,
 		Phases: []mon.Phase{
-			{Name: "programs", Quick: 1600, Thorough: 40000, Run: runProgram, Timeout: 90 * time.Second},
-			{Name: "repeat", Quick: 24, Thorough: 400, Run: runRepeat, Timeout: 120 * time.Second},
+			{Name: "programs", Quick: scale(1600), Thorough: scale(40000), Run: runProgram, Timeout: 90 * time.Second},
+			{Name: "repeat", Quick: scale(24), Thorough: scale(400), Run: runRepeat, Timeout: 120 * time.Second},
 		},
-		Floors: map[string]int{},
+		Floors: map[string]int{
+			"distinct_nontrivial": 500, "families": 15, "evaluations": 3000,
+			"ended-normally": 600, "ended-by-exception": 500, "ended-interrupted": 60, "repeat-series-flat": 8,
+		},
 	}
 }
